@@ -122,6 +122,10 @@ func ParseUIntVal(buf []byte, offs int, pcl *PUIntBody) (int, ErrorHdr) {
 				pcl.soffs = i
 				pcl.UIVal = uint32(c - '0')
 			case clFound:
+				if pcl.UIVal > (^uint32(0)-uint32(c-'0'))/10 {
+					// would not fit in 32 bits
+					return i, ErrHdrNumTooBig
+				}
 				v := pcl.UIVal*10 + uint32(c-'0')
 				if pcl.UIVal > v {
 					// overflow
